@@ -15,6 +15,7 @@ from pb_bss.distribution.mixture_model_utils import (
 )
 from pb_bss.distribution.utils import _ProbabilisticModel
 from pb_bss.permutation_alignment import _PermutationAlignment
+from pb_bss import _verif
 
 __all__ = [
     'CACGMM',
@@ -276,6 +277,12 @@ class CACGMMTrainer:
                 eigenvalue_floor=eigenvalue_floor,
                 weight_constant_axis=weight_constant_axis,
             )
+            if _verif.ENABLED:
+                _verif.emit(
+                    'em_iteration', trainer=self, iteration=iteration, model=model,
+                    affiliation=affiliation, quadratic_form=quadratic_form,
+                    observation=y,
+                )
 
         return model
 
